@@ -232,7 +232,7 @@ where
                 Some(b' ') | Some(b'\n') | Some(b'\t') | Some(b'\r') | Some(0x0C) | Some(b')')
                 | Some(b']') | Some(b'(') | Some(b'[') | Some(b';') | None => {
                     if scratch == b"." {
-                        return error(self, ErrorCode::InvalidSymbol);
+                        return error(self, invalid_dot(self.ch.is_none()));
                     }
                     return result(self, scratch);
                 }
@@ -401,13 +401,13 @@ impl<'a> SliceRead<'a> {
                         // copying.
                         let borrowed = &self.slice[start..self.index];
                         if borrowed == b"." {
-                            return error(self, ErrorCode::InvalidSymbol);
+                            return error(self, invalid_dot(self.peek_byte().is_none()));
                         }
                         return result(self, borrowed).map(Reference::Borrowed);
                     } else {
                         scratch.extend_from_slice(&self.slice[start..self.index]);
                         if scratch == b"." {
-                            return error(self, ErrorCode::InvalidSymbol);
+                            return error(self, invalid_dot(self.peek_byte().is_none()));
                         }
                         // "as &[u8]" is required for rustc 1.8.0
                         let copied = scratch as &[u8];
@@ -695,6 +695,15 @@ fn next_or_eof_char<'de, R: ?Sized + Read<'de>>(read: &mut R) -> Result<u8> {
 fn error<'de, R: ?Sized + Read<'de>, T>(read: &R, reason: ErrorCode) -> Result<T> {
     let position = read.position();
     Err(Error::syntax(reason, position.line, position.column))
+}
+
+/// A lone dot is not a symbol; at the end of input it may be the start of one.
+fn invalid_dot(at_eof: bool) -> ErrorCode {
+    if at_eof {
+        ErrorCode::EofWhileParsingValue
+    } else {
+        ErrorCode::InvalidSymbol
+    }
 }
 
 fn as_str<'de, 's, R: Read<'de>>(read: &R, slice: &'s [u8]) -> Result<&'s str> {
